@@ -9,6 +9,7 @@
 //	    matched by code hash                                   -> C05|accept-wrong-program-set
 //	(b) each program's code hashes to its address               -> C05|accept-unbound-program|prefix=..
 //	(c) each program's signatures verify over the signed bytes  -> C05|accept-invalid-signature|layout=..|prefix=..
+//	    (whole transactions: ...|layout=..|seam=tx)
 //	(d) m-of-n: at least m DISTINCT script keys signed, m >= 1  -> C05|accept-too-few-signers|..
 //
 // (b)-(d) are demanded only where the property speaks: addresses a user can own, i.e. codes in
@@ -188,7 +189,7 @@ func (c *checker) judge(seam string, ph common.Uint168, code, param, data []byte
 		return
 	}
 	if !valid {
-		c.r.Violate(fmt.Sprintf("C05|%s|layout=%s|prefix=%02x|seam=%s", reason, lay, prefix, seam), "a spend was accepted although the independent verifier rejects its signatures", art)
+		c.r.Violate(fmt.Sprintf("C05|%s|layout=%s|prefix=%02x", reason, lay, prefix), "a spend was accepted although the independent verifier rejects its signatures", art)
 	}
 }
 
@@ -485,8 +486,19 @@ func (c *checker) partB() (n int64) {
 		data := unsigned(tx)
 		param := k.sign(data)
 		ph := k.hash()
-		if !c.runOne("mutation-seed", ph, k.code, param, data, k.prefix != keys.PrefixCrossChain || true, k.name) {
+		if !c.runOne("mutation-seed", ph, k.code, param, data, true, k.name) {
 			return
+		}
+		// signatures made over every proper prefix of the signed bytes (and over the bytes plus one)
+		// presented with the full bytes, and the full-bytes signature presented with every prefix
+		for l := 0; l <= len(data); l++ {
+			other := data[:l]
+			if l == len(data) {
+				other = append(append([]byte{}, data...), 0)
+			}
+			atomic.AddInt64(&total, 2)
+			c.runOne("sign-prefix", ph, k.code, k.sign(other), data, false, fmt.Sprintf("%s signed over %d of %d bytes", k.name, len(other), len(data)))
+			c.runOne("present-prefix", ph, k.code, param, other, false, fmt.Sprintf("%s presented %d of %d bytes", k.name, len(other), len(data)))
 		}
 		for part, base := range [][]byte{k.code, param, data} {
 			for pos := range base {
@@ -782,7 +794,7 @@ func main() {
 	ctorsOK := c.partD()
 	os.RemoveAll(scr)
 
-	if c.validRej.Len() > 0 {
+	if c.validRej.Len() > 0 && r.NumViolations() == 0 {
 		var l []string
 		for k := range c.validRej.Map() {
 			l = append(l, k)
@@ -807,7 +819,7 @@ func main() {
 		"evaluations":         c.ct.evals,
 		"distinct_nontrivial": c.ct.accepted,
 		"rule": "A: address sets of size 1..3 over {standard k0, standard k1, deposit k0, multisig 1of2, multisig 2of3, Schnorr} x {plain, +second UTXO of one address, last address named by a Script attribute} x every sequence of length 0..|set|+1 over {valid program, badly signed twin of each needed address, one valid foreign program} through checkTransactionSignature; " +
-			"B: every single-byte substitution (16-value alphabet) of code, parameter and signed bytes of each kind's valid spend through RunPrograms; " +
+			"B: every single-byte substitution (16-value alphabet) of code, parameter and signed bytes of each kind's valid spend, plus signatures over every proper prefix (and one-byte extension) of the signed bytes and every prefix presented with the full signature, through RunPrograms; " +
 			"C: 1<=m<=n<=4 x every assignment of keys to script slots (incl. one key in several slots) x signer sequences of length 0..n+1 over {each script key (j-th use = j-th distinct signature), foreign key, garbage} (quick: n=4 as multisets in both orders) through VerifyMultisigSignatures and RunPrograms; " +
 			"D: 7 prefixes x 15 code classes x 5 unsigned/foreign parameters x hash match/mismatch; all address constructors for n<=4. non-trivial = accepted spends, each judged by the independent verifier",
 		"exhaustive":                 true,
@@ -821,6 +833,7 @@ func main() {
 		"panicked_not_accepted":      c.ct.panicked,
 		"accepted_outside_owned_region_reported": c.ct.reported,
 		"no_signature_check_classes": noSig,
+		"canonical_valid_rejected":   c.validRej.Len(),
 		"outcome_classes":            c.classes.Map(),
 		"samples":                    c.samples.Out,
 	})
